@@ -88,7 +88,7 @@ pub fn gen_valid(rng: &mut Rng, tier: Tier) -> Option<ValidStream> {
     Some(ValidStream {
         file,
         hdr: h,
-        options: sut::opts(us, None, true),
+        options: sut::opts(us, if rng.chance(1, 4) { Some(*rng.pick(&[1usize << 20, 1 << 31, usize::MAX])) } else { None }, true),
         full,
         table,
         desc: format!(
